@@ -1,22 +1,22 @@
 /* Contracts of the object dictionary layer (co_dict.c). */
 #pragma once
-#include "co_core.h"
+#include "vw.h"
 
 /* ghost index: universally quantified by the solver (chosen before the call) */
-extern uint32_t G_K;
 
-#define DEV(k) ((uint32_t)(k) & 0xFFFFFF00u)
 
-/* Shape of a dictionary: Root valid for Num+1 entries, end marker at Num.
- * Sortedness/non-zero keys are the abstract predicate Sorted(cod), available
- * only through the instantiation lemma vw_sorted_inst(). */
+/* The dictionary of the verification world: G_DROOT/G_DNUM name its array and entry count
+ * (the harness allocates Num+1 entries of symbolic Num and assigns the pointers).
+ * Shape: Root valid for Num+1 entries, end marker at Num.  Sortedness / non-zero keys are the
+ * abstract predicate Sorted(cod), available only through the instantiation lemma vw_sorted_inst(). */
+extern CO_OBJ  *G_DROOT;
+extern uint16_t G_DNUM;
 #define WF_DICT_SHAPE(cod) \
-    ((cod)->Num <= (cod)->Max && \
-     __CPROVER_is_fresh((cod)->Root, ((size_t)(cod)->Num + 1) * sizeof(CO_OBJ)) && \
-     (cod)->Root[(cod)->Num].Key == 0)
+    ((cod)->Root == G_DROOT && (cod)->Num == G_DNUM && G_DROOT != NULL && \
+     __CPROVER_r_ok(G_DROOT, ((size_t)G_DNUM + 1) * sizeof(CO_OBJ)) && G_DROOT[G_DNUM].Key == 0)
 
-/* instantiation lemma of Sorted(cod): true by definition of a sorted,
- * end-marked dictionary whose configured entries have non-zero index/sub keys */
+/* instantiation lemma of Sorted(cod): true by definition of a sorted, end-marked dictionary
+ * whose configured entries have non-zero index/sub keys */
 void vw_sorted_inst(CO_DICT *cod, int32_t i, int32_t j)
 __CPROVER_requires(1)
 __CPROVER_ensures((0 <= i && i < j && j < (int32_t)cod->Num) ==> DEV(cod->Root[i].Key) < DEV(cod->Root[j].Key))
@@ -24,17 +24,16 @@ __CPROVER_ensures((0 <= i && i < (int32_t)cod->Num) ==> DEV(cod->Root[i].Key) !=
 __CPROVER_assigns();
 
 CO_OBJ *CODictFind(CO_DICT *cod, uint32_t key)
-__CPROVER_requires(__CPROVER_is_fresh(cod, sizeof(CO_DICT)))
-__CPROVER_requires(WF_DICT_SHAPE(cod))
+__CPROVER_requires(cod != NULL && __CPROVER_r_ok(cod, sizeof(CO_DICT)) && WF_DICT_SHAPE(cod))
 /* a result is an entry of the configured range (never the end marker) with exactly that index/sub */
 __CPROVER_ensures(__CPROVER_return_value != NULL ==>
-    (__CPROVER_same_object(__CPROVER_return_value, cod->Root) &&
+    (__CPROVER_same_object(__CPROVER_return_value, G_DROOT) &&
      __CPROVER_POINTER_OFFSET(__CPROVER_return_value) % sizeof(CO_OBJ) == 0 &&
-     __CPROVER_POINTER_OFFSET(__CPROVER_return_value) < (size_t)cod->Num * sizeof(CO_OBJ) &&
+     __CPROVER_POINTER_OFFSET(__CPROVER_return_value) < (size_t)G_DNUM * sizeof(CO_OBJ) &&
      DEV(__CPROVER_return_value->Key) == DEV(key)))
-/* NULL only if no configured entry has that index/sub (ghost index G_K) */
-/* (index 0000h/sub 0 names no object: WF dictionaries have no such entry) */
-__CPROVER_ensures((__CPROVER_return_value == NULL && G_K < cod->Num && DEV(key) != 0) ==> DEV(cod->Root[G_K].Key) != DEV(key))
+/* NULL only if no configured entry has that index/sub (ghost index G_K)
+ * (index 0000h/sub 0 names no object: WF dictionaries have no such entry) */
+__CPROVER_ensures((__CPROVER_return_value == NULL && G_K < G_DNUM && DEV(key) != 0) ==> DEV(G_DROOT[G_K].Key) != DEV(key))
 __CPROVER_assigns();
 
 /* ---- loop contracts (injected at the loop by the driver, keyed function.ordinal) ---- */
@@ -44,3 +43,63 @@ __CPROVER_assigns();
  __CPROVER_loop_invariant((G_K < cod->Num && (int32_t)G_K < start) ==> DEV(cod->Root[G_K].Key) < pattern) \
  __CPROVER_loop_invariant((G_K < cod->Num && (int32_t)G_K > end) ==> DEV(cod->Root[G_K].Key) > pattern) \
  __CPROVER_decreases(end - start + 1)
+
+/* ---- CODictInit: Num = position of the first zero key, capped by max ---- */
+int16_t CODictInit(CO_DICT *cod, CO_NODE *node, CO_OBJ *root, uint16_t max)
+__CPROVER_requires(__CPROVER_is_fresh(cod, sizeof(CO_DICT)) && __CPROVER_is_fresh(node, sizeof(CO_NODE)))
+__CPROVER_requires(max > 0 && max <= 32767)
+/* the array the application hands over: max entries followed by the end marker (dictionary "max length") */
+__CPROVER_requires(__CPROVER_is_fresh(root, ((size_t)max + 1) * sizeof(CO_OBJ)))
+__CPROVER_ensures(__CPROVER_return_value >= 0 && (uint16_t)__CPROVER_return_value == cod->Num)
+__CPROVER_ensures(cod->Num <= max && cod->Max == max && cod->Root == root && cod->Node == node)
+__CPROVER_ensures(cod->Num < max ==> root[cod->Num].Key == 0)
+__CPROVER_ensures(G_K < cod->Num ==> root[G_K].Key != 0)
+__CPROVER_assigns(*cod);
+#define VWL_dict_init \
+ __CPROVER_assigns(num, obj) \
+ __CPROVER_loop_invariant(num <= max && obj == root + num) \
+ __CPROVER_loop_invariant(G_K < num ==> root[G_K].Key != 0) \
+ __CPROVER_decreases(max - num)
+
+/* ---- CODictObjInit: type-specific initialisation of every configured entry exactly once ----
+ * Stated without a quantified precondition: n = number of COObjInit calls is the position of
+ * the first zero key (Root[n].Key == 0, no zero key before n), each entry before n was
+ * initialised exactly once (ghost index G_K).  n == Num then follows in the harness from the
+ * dictionary invariant (vw_sorted_inst instance at n), see harness/dict_objinit.c. */
+extern uint32_t G_INIT_CNT;   /* ghost: number of COObjInit calls for entry &Root[G_K] */
+extern uint32_t G_INIT_ALL;   /* ghost: number of COObjInit calls at all */
+CO_ERR COObjInit(struct CO_OBJ_T *obj, struct CO_NODE_T *node)
+__CPROVER_requires(obj != NULL && __CPROVER_same_object(obj, G_DROOT))
+__CPROVER_assigns(G_INIT_CNT, G_INIT_ALL)
+__CPROVER_ensures(G_INIT_CNT == __CPROVER_old(G_INIT_CNT) + ((G_K <= G_DNUM && obj == G_DROOT + G_K) ? 1u : 0u))
+__CPROVER_ensures(G_INIT_ALL == __CPROVER_old(G_INIT_ALL) + 1u);
+
+CO_ERR CODictObjInit(CO_DICT *cod, CO_NODE *node)
+__CPROVER_requires(cod != NULL && node != NULL && cod->Root == G_DROOT && cod->Num == G_DNUM)
+__CPROVER_requires(__CPROVER_r_ok(G_DROOT, ((size_t)G_DNUM + 1) * sizeof(CO_OBJ)) && G_DROOT[G_DNUM].Key == 0)
+__CPROVER_requires(G_INIT_CNT == 0 && G_INIT_ALL == 0)
+__CPROVER_ensures(G_INIT_ALL <= G_DNUM && G_DROOT[G_INIT_ALL].Key == 0)
+__CPROVER_ensures(G_K < G_INIT_ALL ==> (G_INIT_CNT == 1 && G_DROOT[G_K].Key != 0))
+__CPROVER_assigns(G_INIT_CNT, G_INIT_ALL);
+#define VWL_dict_objinit \
+ __CPROVER_assigns(obj, err, result, G_INIT_CNT, G_INIT_ALL) \
+ __CPROVER_loop_invariant(G_INIT_ALL <= G_DNUM && obj == G_DROOT + G_INIT_ALL) \
+ __CPROVER_loop_invariant(G_K < G_INIT_ALL ==> (G_INIT_CNT == 1 && G_DROOT[G_K].Key != 0)) \
+ __CPROVER_loop_invariant(G_K >= G_INIT_ALL ==> G_INIT_CNT == 0) \
+ __CPROVER_decreases(G_DNUM - G_INIT_ALL)
+
+/* ---- CODictRdBuffer / CODictWrBuffer: find the entry, then one buffer access "from the start"
+ * with the caller's buffer and the caller's length, unchanged (argument expectation ghosts of obj.h:
+ * the callee's requires fails if len is narrowed or another buffer is passed) ---- */
+#include "obj.h"
+#define DICT_BUF_CONTRACT(NAME, CNT) \
+CO_ERR NAME(CO_DICT *cod, uint32_t key, uint8_t *buf, uint32_t len) \
+__CPROVER_requires(cod == &V_NODE.Dict && WF_DICT_SHAPE(cod) && cod->Node == &V_NODE) \
+__CPROVER_requires(G_EXP_ON && G_EXP_SIZE == len && G_EXP_BUF == buf && G_EXP_PARA == 0) \
+__CPROVER_ensures(buf == NULL ==> __CPROVER_return_value == CO_ERR_BAD_ARG) \
+/* (which entry is accessed / NOT_FOUND exactness: CODictFind's contract, groups dict_find and dict_typed_*) */ \
+__CPROVER_ensures(CNT == __CPROVER_old(CNT) || CNT == __CPROVER_old(CNT) + 1)
+DICT_BUF_CONTRACT(CODictRdBuffer, G_READ_N)
+__CPROVER_assigns(G_TYPE_STATE, G_READ_N, G_RESET_N; buf != NULL: __CPROVER_object_whole(buf));
+DICT_BUF_CONTRACT(CODictWrBuffer, G_WRITE_N)
+__CPROVER_assigns(G_TYPE_STATE, G_WRITE_N, G_RESET_N);
